@@ -38,7 +38,7 @@ class Segment:
             "pos": self.pos,
             "size": self.size,
         }
-        if self.duration:
+        if self.duration is not None:
             rv["duration"] = self.duration
         if exclude is None:
             return rv
